@@ -677,3 +677,89 @@ theorem inv_removeService (n : Naming) (k : SKey) (h : Inv n) : Inv (n.removeSer
     · exact h
 
 end RNacos.Naming
+
+namespace RNacos.Naming
+
+/-! ### the result of a host probe (`PerpetualHostSniffing`) -/
+
+theorem svcInv_probeValid (s : Svc) (key : ShortKey) (hs : SvcInv s) : SvcInv (s.probeValid key) := by
+  unfold Svc.probeValid
+  cases hg : AL.get? s.insts key with
+  | none => exact hs
+  | some i =>
+    simp only
+    by_cases hh : (!i.healthy && !i.ephemeral) = true
+    · simp only [hh, if_true]
+      have hh1 : i.healthy = false := by cases h : i.healthy <;> simp_all
+      have hk : ({ i with healthy := true } : Inst).short = key := hs.keyed key i hg
+      have e := svcInv_replaceInst s i { i with healthy := true } true hs (by rw [hk]; exact hg)
+      unfold Svc.replaceInst at e
+      simp only [hh1, hk] at e
+      refine ⟨e.nodup, e.keyed, e.size, ?_, ?_, ?_⟩
+      · have := e.healthy; simpa using this
+      · have := e.perp; simpa using this
+      · have := e.perpNodup; simpa using this
+    · simp only [hh, Bool.false_eq_true, if_false]; exact hs
+
+/-- a probe changes at most the health flag of the instance at the host: who owns it stays -/
+theorem probe_keeps_owner (s : Svc) (key k : ShortKey) (ok : Bool) (i : Inst) (hg : AL.get? s.insts k = some i) :
+    ∃ i', AL.get? (if ok then s.probeValid key else s.markUnhealthy key).insts k = some i' ∧
+      i'.clientId = i.clientId ∧ i'.fromGrpc = i.fromGrpc ∧ i'.fromCluster = i.fromCluster := by
+  by_cases hk : key = k
+  · subst hk
+    cases ok with
+    | true =>
+      simp only [if_true]
+      unfold Svc.probeValid
+      simp only [hg]
+      split
+      · exact ⟨{ i with healthy := true }, by simp, rfl, rfl, rfl⟩
+      · exact ⟨i, hg, rfl, rfl, rfl⟩
+    | false =>
+      simp only [Bool.false_eq_true, if_false]
+      unfold Svc.markUnhealthy
+      simp only [hg]
+      split
+      · exact ⟨{ i with healthy := false }, by simp, rfl, rfl, rfl⟩
+      · exact ⟨i, hg, rfl, rfl, rfl⟩
+  · refine ⟨i, ?_, rfl, rfl, rfl⟩
+    cases ok with
+    | true =>
+      simp only [if_true]
+      unfold Svc.probeValid
+      cases hgk : AL.get? s.insts key with
+      | none => exact hg
+      | some j =>
+        simp only
+        split
+        · simp only; rw [AL.get?_set_other _ _ _ _ hk]; exact hg
+        · exact hg
+    | false =>
+      simp only [Bool.false_eq_true, if_false]
+      rw [markUnhealthy_other _ _ _ hk]; exact hg
+
+theorem inv_probe (n : Naming) (k : SKey) (short : ShortKey) (ok : Bool) (h : Inv n) : Inv (n.probe k short ok) := by
+  unfold Naming.probe
+  cases hg : AL.get? n.services k with
+  | none => exact h
+  | some svc =>
+    simp only
+    have hsvc : SvcInv (if ok then svc.probeValid short else svc.markUnhealthy short) := by
+      cases ok
+      · simpa using svcInv_markUnhealthy svc short (h.svcs _ _ hg)
+      · simpa using svcInv_probeValid svc short (h.svcs _ _ hg)
+    have := inv_setService n k (if ok then svc.probeValid short else svc.markUnhealthy short) n.emptySet n.clientSets h
+      (by simp [hg]) hsvc ?_
+    · simpa using this
+    · intro c ks hc
+      obtain ⟨hn0, ho0⟩ := h.clients c ks hc
+      refine ⟨hn0, ?_⟩
+      intro ik hik
+      obtain ⟨s, i, g1, g2, g3, g4, g5⟩ := ho0 ik hik
+      by_cases e2 : k = ik.skey
+      · rw [← e2, hg] at g1; cases g1
+        obtain ⟨i', hi', c1, c2, c3⟩ := probe_keeps_owner svc short ik.short ok i g2
+        exact ⟨_, i', by rw [← e2]; simp, hi', by rw [c1]; exact g3, g4, by rw [c2, c3]; exact g5⟩
+      · exact ⟨s, i, by simp only [AL.get?_set_other _ _ _ _ e2]; exact g1, g2, g3, g4, g5⟩
+
+end RNacos.Naming
